@@ -33,7 +33,8 @@ TOL_HYP = 1e-10     # hypotheses of `eig_le_one_espirit` on the real intermediat
 
 
 def translate(ctx):
-    # EspiritSteps: every arithmetic statement of EspiritCalib.__init__/_output (fail-closed); C14Power: the PowerMethod
+    # EspiritSteps: every arithmetic statement of EspiritCalib.__init__/_output (fail-closed, matched on the normal form of
+    # harness/translate/norm_c17.py: private helpers inlined, keyword/positional, commuted ints, unknown temporaries); C14Power: the PowerMethod
     # step / stopping rule the run theorems iterate; UtilFormulas: the resize shifts inside the DFT phases
     G.regenerate(ctx, ["Block", "EspiritFormulas", "EspiritSteps", "C14Power", "UtilFormulas"])
 
@@ -395,6 +396,9 @@ def correspond(ctx):
     check_run_wiring(ctx, bad)
     ctx.traces = ctx.evaluations
     ctx.assumptions += [
+        "the translator matches EspiritCalib after behaviour-preserving normalisation (harness/translate/norm_c17.py: private helpers "
+        "inlined, positional/keyword arguments resolved against the callee's signature, commuted integer operands, pure single-assignment "
+        "temporaries inlined, negated guards); Python aliasing is not tracked by the temporary inliner",
         "eig <= 1 is a theorem (eig_le_one_espirit_dft, espirit_run_eig_unit_interval_dft) under ONE numerical hypothesis: the "
         "rows of numpy's VH are orthonormal (numpy.linalg.svd contract; checked on the real VH on every run at 1e-10). The "
         "image-domain kernels are DEFINED as the centred orthonormal inverse DFT of the centre-padded kernels with explicit "
